@@ -109,6 +109,9 @@ func runElem(c gen.GraphCase, call elemCall, cache spec.ResolutionCache, refused
 		rootBefore = mustJSON(root)
 	}
 	opts := &spec.ExpandOptions{RelativeBase: c.Root, PathLoader: l.load}
+	if call.Entry == "ExpandSchemaWithBasePath" && call.Root == "preloaded" {
+		opts.RelativeBase = "" // no base location: the root is the one the cache holds under the pseudo location
+	}
 	optsBefore := *opts
 	old := spec.PathLoader
 	spec.PathLoader = l.load
